@@ -149,8 +149,9 @@ type c33alpha struct {
 }
 
 type c33done struct {
-	op  c33alpha
-	ret int // clock at return (0 = did not return)
+	op     c33alpha
+	ret    int   // clock at return (0 = did not return)
+	cheque int64 // in-memory last sent cumulative payout when a pay returned
 }
 
 var c33ops = []c33alpha{{"retrieve", 3}, {"retrieve", 7}, {"transfer", 5}, {"transfer", 2}, {"pay", 5}}
@@ -163,20 +164,37 @@ func TestVerifC33(t *testing.T) {
 		"crash": "restart on every prefix of the state-store write log (0..n writes) after the concurrent phase",
 		"peers": 1}},
 		func(x *mc.X) {
-			progs := make([][]c33alpha, nThreads)
-			prev := -1
-			for i := range progs {
-				k := x.Choose(len(c33ops))
-				if k < prev {
-					x.Logf("symmetric duplicate skipped")
-					return
+			// Payments are issued by accounting's single settle goroutine, one at a time: only thread 0
+			// pays. Mode 1 is one driver thread alternating traffic and payments (two cheques in a row).
+			var progs [][]c33alpha
+			if x.Choose(2) == 1 {
+				progs = [][]c33alpha{{{"retrieve", 3}, {"pay", 1}, {"retrieve", 7}, {"pay", 1}}}
+				if mc.Thorough() && x.Bool() {
+					progs = append(progs, []c33alpha{{"transfer", 2}})
 				}
-				prev = k
-				progs[i] = append(progs[i], c33ops[k])
-			}
-			if mc.Thorough() {
-				if k := x.Choose(len(c33ops) + 1); k > 0 {
-					progs[0] = append(progs[0], c33ops[k-1])
+			} else {
+				progs = make([][]c33alpha, nThreads)
+				prev := -1
+				for i := range progs {
+					menu := len(c33ops)
+					if i > 0 {
+						menu-- // "pay" is the last entry: traffic updates only
+					}
+					k := x.Choose(menu)
+					if i > 1 && k < prev {
+						x.Logf("symmetric duplicate skipped")
+						return
+					}
+					prev = k
+					progs[i] = append(progs[i], c33ops[k])
+					if i == 0 && c33ops[k].kind != "pay" && x.Bool() {
+						progs[i] = append(progs[i], c33alpha{"pay", 1})
+					}
+				}
+				if mc.Thorough() {
+					if k := x.Choose(len(c33ops)); k > 0 {
+						progs[0] = append(progs[0], c33ops[k-1])
+					}
 				}
 			}
 			x.Logf("programs %v", progs)
@@ -206,6 +224,9 @@ func TestVerifC33(t *testing.T) {
 							}
 							if err != nil && err != ErrInsufficientFunds {
 								x.Broken("operation %v failed: %v", a, err)
+							}
+							if a.kind == "pay" {
+								d.cheque = svc.getTraffic(c33PeerA).retrieveChequeTraffic.Int64()
 							}
 							clock++
 							d.ret = clock
@@ -242,9 +263,12 @@ func TestVerifC33(t *testing.T) {
 			}
 			// acknowledged before the crash = returned before the last surviving write was issued
 			// (the crash lies after that write); with nothing dropped everything is acknowledged
-			var ackRetrieve, ackTransfer, allRetrieve int64
+			var ackRetrieve, ackTransfer, allRetrieve, ackCheque int64
 			for _, d := range done {
 				acked := d.ret != 0 && (keep == len(st.log) || d.ret < lastKept)
+				if acked && d.cheque > ackCheque {
+					ackCheque = d.cheque
+				}
 				switch d.op.kind {
 				case "retrieve":
 					allRetrieve += d.op.amt
@@ -278,6 +302,9 @@ func TestVerifC33(t *testing.T) {
 				x.Logf("restored retrieve=%d transfer=%d cheque=%d", gotR, gotT, tr.retrieveChequeTraffic.Int64())
 				if gotR < ackRetrieve {
 					x.Fail("restored-retrieve-total-below-acknowledged", "after restart the consumed-traffic total is %d but %d had been acknowledged before the restart (programs %v, %d of %d writes survived)", gotR, ackRetrieve, progs, n-k, n)
+				}
+				if got := tr.retrieveChequeTraffic.Int64(); got < ackCheque {
+					x.Fail("restored-last-cheque-below-acknowledged", "after restart the last sent cumulative payout is %d but a payment that had returned before the restart had sent %d (programs %v, %d of %d writes survived)", got, ackCheque, progs, n-k, n)
 				}
 				if gotT < ackTransfer {
 					x.Fail("restored-transfer-total-below-acknowledged", "after restart the served-traffic total is %d but %d had been acknowledged before the restart (programs %v, %d of %d writes survived)", gotT, ackTransfer, progs, n-k, n)
